@@ -266,6 +266,19 @@ func doDump(p *Prog, what string) {
 	case strings.HasPrefix(what, "ssa:"):
 		fn := p.Func(strings.TrimPrefix(what, "ssa:"))
 		fn.WriteTo(os.Stdout)
+	case what == "writes":
+		o := p.Own()
+		for _, fn := range p.Funcs {
+			for _, w := range o.Writes[fn] {
+				roots, _ := o.rootsOf(w.Target)
+				var rs []string
+				for par := range roots {
+					rs = append(rs, par.Name())
+				}
+				sort.Strings(rs)
+				fmt.Printf("%s %s %s roots=%v\n", p.FuncName(w.Fn), w.Kind, p.InstrPos(w.Instr), rs)
+			}
+		}
 	case what == "mut":
 		for _, l := range p.Own().MutSummary() {
 			fmt.Println(l)
